@@ -820,7 +820,8 @@ impl<'a> Constraint<'a> {
             Self::Union(subconstraints) => {
                 s += "[ ";
                 for (i, subconstraint) in subconstraints.iter().enumerate() {
-                    s += subconstraint.to_string()?.as_str();
+                    //(without the terminating semicolon, just like the other unions)
+                    s += subconstraint.to_string()?.trim_end_matches(';');
                     if i < subconstraints.len() - 1 {
                         s += " OR ";
                     }
